@@ -1,12 +1,15 @@
 #!/bin/bash
-# usage: try_seed.sh <patch.diff> <check id>...   — applies a seeded change to /repo, runs the checks, reverts.
-P=$1; shift
+# usage: try_seed.sh <patch.diff> <check id>...
+# Runs the registered checks against a scratch worktree of /repo with the seeded change applied (REPO_DIR), so /repo itself
+# is never modified and the evidence of the real tree is not overwritten (GOSX_EVIDENCE_DIR). Replays go to /tmp as well.
+P=$(readlink -f "$1"); shift
 cd /verif
-export GOSX_EVIDENCE_DIR=/tmp/try_evidence
-git -C /repo apply "$P" || { echo "patch does not apply to /repo"; exit 2; }
+WT=/tmp/wt_try_$$
+git -C /repo worktree add --detach $WT HEAD >/dev/null 2>&1 || { echo "cannot create worktree"; exit 2; }
+trap "git -C /repo worktree remove --force $WT >/dev/null 2>&1; rm -rf $WT /tmp/try_evidence_$$" EXIT
+git -C $WT apply "$P" || { echo "patch does not apply"; exit 2; }
+export REPO_DIR=$WT GOSX_EVIDENCE_DIR=/tmp/try_evidence_$$
 for c in "$@"; do
-  timeout 900 ./check $c quick > /tmp/try_$c.log 2>&1; rc=$?
+  timeout 1200 ./check $c quick > /tmp/try_$c.log 2>&1; rc=$?
   echo "$c exit=$rc: $(grep -c '^VIOLATION' /tmp/try_$c.log) violations; $(grep '^VIOLATION' -A2 /tmp/try_$c.log | head -6 | tr '\n' ' ' | cut -c1-400)"
 done
-git -C /repo checkout -- .
-git -C /repo status --short
